@@ -1394,6 +1394,11 @@ class Store:
                 mother_steps = self.get_path(mother_path).get_steps()
                 deep_merge_check(
                     processes, copy.deepcopy(mother_steps) or {})
+                # the copies start with no command in flight, even if
+                # the mother's update has not been collected yet
+                for copied in hierarchy_depth(processes).values():
+                    copied._pending_command = None  # pylint: disable=protected-access
+                    copied._command_result = None  # pylint: disable=protected-access
 
             # get the daughter topology
             if 'topology' in daughter:
